@@ -80,7 +80,17 @@ func (n *markNode) Type() el.NodeType { return n.kind }
 func (n *markNode) Reopen() error     { simrt.Yield("node:reopen"); return nil }
 func (n *markNode) Close(ctx context.Context) error {
 	simrt.Yield("node:close")
+	if n.fail {
+		return fmt.Errorf("%s of %s", injectedCloseFailure, n.label)
+	}
 	return nil
+}
+
+const injectedCloseFailure = "injected close failure"
+
+// removedDespite: a removal that failed ONLY because closing the removed node failed has removed it.
+func removedDespite(err error) bool {
+	return err != nil && strings.Contains(err.Error(), injectedCloseFailure)
 }
 
 func (n *markNode) Process(ctx context.Context, e *el.Event) (*el.Event, error) {
@@ -216,7 +226,7 @@ func execOp(ctx context.Context, b *el.Broker, o *cOp, sh *concShared) {
 		setRet(o, sh, ok, ok, 0)
 	case "rmnode":
 		err := b.RemoveNode(ctx, el.NodeID(o.ID))
-		setRet(o, sh, err == nil, false, 0)
+		setRet(o, sh, err == nil || removedDespite(err), false, 0)
 	case "regnode":
 		var opts []el.Option
 		if o.Policy == "deny" {
@@ -499,6 +509,9 @@ func runConc(rc *RunCtx, prop string) {
 	}
 	// some pool nodes call back into the Broker from Process (as the gated filter does): a Send of
 	// type "tz", which has a pipeline of plain nodes that is not part of the history
+	// in some runs every node's Close fails (a removal then reports the failure AND has removed the node;
+	// several nodes closed by one RemovePipelineAndNodes all report)
+	closeFails := prop == "C04" && tp.Choose(3, "close-fails") == 0
 	nesting := tp.Choose(3, "nesting-nodes") == 0
 	if nesting {
 		broker.RegisterNode("tzf", &markNode{label: "tzf", kind: el.NodeTypeFormatter, sh: sh})
@@ -506,7 +519,7 @@ func runConc(rc *RunCtx, prop string) {
 		broker.RegisterPipeline(el.Pipeline{PipelineID: "tz", EventType: "tz", NodeIDs: []el.NodeID{"tzf", "tzs"}})
 	}
 	for _, id := range pool {
-		mn := &markNode{label: id, kind: kinds[id], sh: sh}
+		mn := &markNode{label: id, kind: kinds[id], sh: sh, fail: closeFails}
 		if nesting && (id == "n0" || id == "n2") {
 			mn.nest = broker
 		}
@@ -530,7 +543,7 @@ func runConc(rc *RunCtx, prop string) {
 		nodeKinds[m] = el.NodeTypeFilter
 		o := &cOp{Kind: "regpipe", Typ: typ, PID: pid, Marker: m}
 		rn := &cOp{Kind: "regnode", ID: m}
-		rn.obj = &markNode{label: m, kind: el.NodeTypeFilter, sh: sh}
+		rn.obj = &markNode{label: m, kind: el.NodeTypeFilter, sh: sh, fail: closeFails}
 		o.NodeIDs = []string{m}
 		if tp.Choose(3, "withn0") == 0 {
 			o.NodeIDs = append(o.NodeIDs, "n0")
@@ -624,7 +637,7 @@ func runConc(rc *RunCtx, prop string) {
 			if tp.Choose(4, "node-deny") == 0 {
 				o.Policy = "deny"
 			}
-			o.obj = &markNode{label: fmt.Sprintf("%s'%d", id, objSeq), kind: kinds[id], sh: sh}
+			o.obj = &markNode{label: fmt.Sprintf("%s'%d", id, objSeq), kind: kinds[id], sh: sh, fail: closeFails}
 			return one(o)
 		case 5:
 			return one(&cOp{Kind: "setthr", Typ: typ, Thr: tp.Choose(4, "thr") - 1})
